@@ -211,7 +211,7 @@ func (x *c19ctx) mergeRules(startFld, endFld *types.Var) {
 	c := x.c
 	var scope []*ssa.Function
 	inScope := map[*ssa.Function]bool{}
-	for _, f := range core.TransitiveCallees(x.sortFn, 3) {
+	for _, f := range core.TransitiveCallees(x.sortFn, 5) {
 		if core.FuncPkgRel(f) == c19pkg && !inScope[f] {
 			inScope[f] = true
 			scope = append(scope, f)
@@ -329,7 +329,7 @@ func (x *c19ctx) mergeRules(startFld, endFld *types.Var) {
 				why = append(why, tf.Name()+" of "+tgt+" is overwritten with "+sf.Name()+" of "+src)
 			}
 			found := false
-			for _, g := range core.GuardsAt(st.Block()) {
+			for _, g := range uuGuardsAt(st.Block()) {
 				call, set, isCmp := uuCmpSet(g.Cond, g.Pol)
 				if !isCmp {
 					continue
@@ -368,6 +368,7 @@ func (x *c19ctx) mergeRules(startFld, endFld *types.Var) {
 		pos     token.Pos
 		fn      *ssa.Function
 		element string
+		elem    ssa.Value
 	}
 	tombs := map[string]*tomb{}
 	var tombKeys []string
@@ -390,7 +391,7 @@ func (x *c19ctx) mergeRules(startFld, endFld *types.Var) {
 			k := short(fn) + "|" + pk
 			t := tombs[k]
 			if t == nil {
-				t = &tomb{fields: map[*types.Var]string{}, fn: fn, element: core.Render(tbase)}
+				t = &tomb{fields: map[*types.Var]string{}, fn: fn, element: core.Render(tbase), elem: tbase}
 				tombs[k] = t
 				tombKeys = append(tombKeys, k)
 			}
@@ -398,6 +399,32 @@ func (x *c19ctx) mergeRules(startFld, endFld *types.Var) {
 			t.pos = st.Pos()
 			written[g] = true
 		}
+	}
+	// a tombstone written by a private helper that receives the entry through
+	// its parameters (`clearPair(items, k)`, `func(p *ipPair){…}(&items[j])`)
+	// is one instance per call site of the helper: sharing the helper between
+	// two places that mark entries as merged does not make one of them vanish
+	paramOnly := func(fn *ssa.Function, elem ssa.Value) bool {
+		isPrm := func(v ssa.Value) bool { _, ok := uuResolve(v).(*ssa.Parameter); return ok }
+		switch e := elem.(type) {
+		case *ssa.Parameter:
+			return true
+		case *ssa.IndexAddr:
+			return isPrm(e.X) && isPrm(e.Index)
+		}
+		return false
+	}
+	helperSites := func(fn *ssa.Function) []ssa.CallInstruction {
+		if fn.Parent() == nil && (fn.Object() == nil || fn.Object().Exported()) {
+			return nil
+		}
+		sites := c.P.CallSites(fn)
+		for _, s := range sites {
+			if _, isCall := s.(*ssa.Call); !isCall || !inScope[s.Parent()] || s.Parent() == fn {
+				return nil
+			}
+		}
+		return sites
 	}
 	ordT := uuOrd{}
 	for _, k := range tombKeys {
@@ -411,8 +438,26 @@ func (x *c19ctx) mergeRules(startFld, endFld *types.Var) {
 				why = append(why, f.Name()+" is set to net."+g+", not to net.IPv6zero (the all-zero 16-byte value, the minimum under bytes.Compare)")
 			}
 		}
-		c.Check("tombstone-write", ordT.key(short(t.fn), "tombstone"), t.pos, len(why) == 0,
-			"the merge step marks "+t.element+" as merged but "+strings.Join(why, "; ")+": the re-sort in IPItems.Sort must move every merged entry behind all live ranges (start = ::) so that the truncation by mergedNum cuts exactly them, and the skip test must recognise it (end = ::)")
+		type inst struct {
+			fn   *ssa.Function
+			pos  token.Pos
+			what string
+		}
+		insts := []inst{{t.fn, t.pos, t.element}}
+		if sites := helperSites(t.fn); len(sites) > 0 && paramOnly(t.fn, t.elem) {
+			insts = nil
+			for _, s := range sites {
+				var args []string
+				for _, a := range s.Common().Args {
+					args = append(args, core.Render(a))
+				}
+				insts = append(insts, inst{s.Parent(), s.Pos(), short(t.fn) + "(" + strings.Join(args, ", ") + ")"})
+			}
+		}
+		for _, i := range insts {
+			c.Check("tombstone-write", ordT.key(short(i.fn), "tombstone"), i.pos, len(why) == 0,
+				"the merge step marks "+i.what+" as merged but "+strings.Join(why, "; ")+": the re-sort in IPItems.Sort must move every merged entry behind all live ranges (start = ::) so that the truncation by mergedNum cuts exactly them, and the skip test must recognise it (end = ::)")
+		}
 	}
 	c.Min("tombstone-write", 2)
 
@@ -436,7 +481,7 @@ func (x *c19ctx) mergeRules(startFld, endFld *types.Var) {
 				isRes := func(call *ssa.Call) func(g core.Guard) bool {
 					return func(g core.Guard) bool { return g.Pol && uuResolve(g.Cond) == ssa.Value(call) }
 				}
-				if core.HasGuard(z.call.Block(), isRes(z2.call)) || core.HasGuard(z2.call.Block(), isRes(z.call)) {
+				if uuHasGuard(z.call.Block(), isRes(z2.call)) || uuHasGuard(z2.call.Block(), isRes(z.call)) {
 					ok = true
 				}
 			}
@@ -462,24 +507,52 @@ func (x *c19ctx) mergeRules(startFld, endFld *types.Var) {
 // ---------------------------------------------------------------- C21: stale reads across Wait, pool discipline
 
 // c21FreshAfterWait: a value read from a field guarded by p.mu must not be
-// used after the lock was given up (Cond.Wait, an explicit Unlock) without
-// being read again.
-func c21FreshAfterWait(c *core.Ctx, pkgFns []*ssa.Function, fields []*types.Var, isRelease func(in ssa.Instruction) bool, short func(fn *ssa.Function) string) {
+// used after the lock was given up without being read again. classify tells,
+// for an instruction, whether it gives the lock up and takes it again (1:
+// Cond.Wait, an Unlock that a Lock follows — the function goes on working on
+// the shared state, so every use of a value read before is a stale snapshot)
+// or gives it up for good (2: a final explicit Unlock — a snapshot taken under
+// the lock may still be compared and returned, exactly as with a deferred
+// Unlock, but it must not be acted through: no call on / with it, no store to
+// shared memory, no send, no close). The staleness itself is a forward
+// dataflow (uuStaleUse): a value is fresh again as soon as the field was read
+// again on the path, phis take the state of the edge they are entered over.
+func c21FreshAfterWait(c *core.Ctx, pkgFns []*ssa.Function, fields []*types.Var, classify func(in ssa.Instruction) int, short func(fn *ssa.Function) string) {
+	anyUse := func(in ssa.Instruction) bool {
+		_, isDbg := in.(*ssa.DebugRef)
+		return !isDbg
+	}
+	acting := func(in ssa.Instruction) bool {
+		switch v := in.(type) {
+		case ssa.CallInstruction:
+			if b, isB := v.Common().Value.(*ssa.Builtin); isB && (b.Name() == "len" || b.Name() == "cap") {
+				return false
+			}
+			return true
+		case *ssa.Store:
+			_, local := v.Addr.(*ssa.Alloc)
+			return !local
+		case *ssa.Send, *ssa.MapUpdate, *ssa.Panic:
+			return true
+		}
+		return false
+	}
 	for _, fn := range pkgFns {
-		var releases []ssa.Instruction
+		strict, lenient := map[ssa.Instruction]bool{}, map[ssa.Instruction]bool{}
 		for _, in := range uuInstrs(fn) {
-			if isRelease(in) {
-				releases = append(releases, in)
+			switch classify(in) {
+			case 1:
+				strict[in] = true
+			case 2:
+				lenient[in] = true
 			}
 		}
-		if len(releases) == 0 {
+		if len(strict) == 0 && len(lenient) == 0 {
 			continue
 		}
 		for _, f := range fields {
-			// loads of the field and what is computed from them
-			sources := map[ssa.Instruction]map[ssa.Instruction]bool{} // use -> loads it depends on
+			loads := map[ssa.Instruction]bool{}
 			var firstPos token.Pos
-			nLoads := 0
 			core.Instrs(fn, func(in ssa.Instruction) {
 				fa, ok := in.(*ssa.FieldAddr)
 				if !ok || core.FieldObj(fa.X, fa.Field) != f || fa.Referrers() == nil {
@@ -493,42 +566,32 @@ func c21FreshAfterWait(c *core.Ctx, pkgFns []*ssa.Function, fields []*types.Var,
 					if !isLd || ld.Op != token.MUL {
 						continue
 					}
-					nLoads++
+					loads[ld] = true
 					if firstPos == token.NoPos {
 						firstPos = ld.Pos()
 					}
-					for u := range uuForwardSlice(ld) {
-						if sources[u] == nil {
-							sources[u] = map[ssa.Instruction]bool{}
-						}
-						sources[u][ld] = true
-					}
 				}
 			})
-			if nLoads == 0 {
+			if len(loads) == 0 {
 				continue
 			}
-			var uses []ssa.Instruction
-			for u := range sources {
-				uses = append(uses, u)
-			}
-			sort.Slice(uses, func(i, j int) bool { return uses[i].Pos() < uses[j].Pos() })
+			isLoad := func(in ssa.Instruction) bool { return loads[in] }
 			ok, detail, pos := true, "", firstPos
-			for _, u := range uses {
-				if !ok {
-					break
+			report := func(u ssa.Instruction, how string) {
+				ok = false
+				if u.Pos() != token.NoPos {
+					pos = u.Pos()
 				}
-				srcs := sources[u]
-				for _, w := range releases {
-					hit := core.ReachAvoiding(fn, w, func(in ssa.Instruction) bool { return srcs[in] }, func(in ssa.Instruction) bool { return in == u })
-					if hit != nil {
-						ok = false
-						if u.Pos() != token.NoPos {
-							pos = u.Pos()
-						}
-						detail = fmt.Sprintf("%s uses a value read from Pipe.%s (%s) on a path that comes from %s without reading the field again: the lock is not held while waiting, so the field can have changed (buffer released to the pool and handed to another pipe, error set); the woken reader acts on a stale snapshot", short(fn), f.Name(), strings.TrimSpace(u.String()), strings.TrimSpace(w.String()))
-						break
-					}
+				detail = fmt.Sprintf("%s uses a value read from Pipe.%s (%s) %s without reading the field again: the lock is not held in between, so the field can have changed (buffer released to the pool and handed to another pipe, error set); the function acts on a stale snapshot", short(fn), f.Name(), strings.TrimSpace(u.String()), how)
+			}
+			if len(strict) > 0 {
+				if u := uuStaleUse(fn, strict, isLoad, anyUse); u != nil {
+					report(u, "on a path that comes from a point where p.mu was given up and taken again (Cond.Wait / Unlock…Lock)")
+				}
+			}
+			if ok && len(lenient) > 0 {
+				if u := uuStaleUse(fn, lenient, isLoad, acting); u != nil {
+					report(u, "after p.mu was unlocked, in a call / store (a snapshot may only be compared and returned)")
 				}
 			}
 			c.Check("fresh-after-wait", short(fn)+":"+f.Name(), pos, ok, detail)
@@ -639,7 +702,7 @@ func c22BypassAndUnread(c *core.Ctx, methods []*ssa.Function, F c22unreadFields,
 				continue
 			}
 			key := ord.key(name, "direct")
-			empty := uuHasRel(call.Block(), func(r uuRel) bool {
+			empty := uuHasRelCtx(c.P, call.Block(), func(r uuRel) bool {
 				return r.Op == token.EQL && ((isLoad(r.X, F.r) && isLoad(r.Y, F.w)) || (isLoad(r.X, F.w) && isLoad(r.Y, F.r)))
 			})
 			c.Check("bypass-state", key+":empty-buffer", call.Pos(), empty,
